@@ -154,8 +154,8 @@ class Injector:
             raise RuntimeError(f"injected at {label}")
         if f == "interrupt":
             raise KeyboardInterrupt
-        if f == "gitfail" and git:
-            return "gitfail"
+        if f in ("gitfail", "gitfail-after", "interrupt-after") and git:
+            return f
         return None
 
 
@@ -182,6 +182,14 @@ def instrumented(inj):
                 if kw.get("check"):
                     raise real_sub.CalledProcessError(1, args, b"", b"injected failure")
                 return real_sub.CompletedProcess(args, 1, b"" if not kw.get("text") else "", b"injected failure" if not kw.get("text") else "injected failure")
+            if r in ("gitfail-after", "interrupt-after"):
+                # the command really runs (with all its side effects) and THEN fails / is interrupted: a failing hook or filter, Ctrl-C late in the command
+                res = real_sub.run(args, **{**kw, "check": False})
+                if r == "interrupt-after":
+                    raise KeyboardInterrupt
+                if kw.get("check"):
+                    raise real_sub.CalledProcessError(1, args, res.stdout, res.stderr)
+                return real_sub.CompletedProcess(args, 1, res.stdout, res.stderr)
             return real_sub.run(args, **kw)
 
         def check_output(self, args, **kw):
@@ -331,7 +339,7 @@ def pairs(tier):
 
 
 def bounds(tier):
-    return {"histories": HISTORIES, "operations": OPS, "fault_kinds": ["gitfail", "runtime", "interrupt"], "max_faults": 1 if tier == "quick" else 2, "history_x_operation_pairs": len(list(pairs(tier)))}
+    return {"histories": HISTORIES, "operations": OPS, "fault_kinds": ["gitfail", "runtime", "interrupt", "gitfail-after (worktree add)", "interrupt-after (worktree add)"], "max_faults": 1 if tier == "quick" else 2, "history_x_operation_pairs": len(list(pairs(tier)))}
 
 
 def shards(tier):
@@ -429,9 +437,11 @@ def run_shard(shard, tier):
         kinds = ["gitfail", "runtime", "interrupt"]
         plans = []
         for i, label in enumerate(log):
-            for f in kinds:
-                if f == "gitfail" and not label.startswith("git:"):
-                    continue
+            for f in kinds + ["gitfail-after", "interrupt-after"]:
+                if f.startswith("gitfail") or f == "interrupt-after":
+                    # the "after" kinds only where a half-done command matters: commands that change the repository and are not clean-up
+                    if not label.startswith("git:") or (f != "gitfail" and label != "git:worktree-add"):
+                        continue
                 plans.append({i: f})
         if tier == "thorough":
             for i, li in enumerate(log):
